@@ -214,8 +214,14 @@ pub fn plan(seed: u64, corpus: &[Input], thorough: bool) -> Plan {
                 };
                 match gen::edited_copy(&mut rng, &inputs[k]) {
                     Some(t) => {
+                        // sometimes the edit goes on: v1 -> v2 -> v3
+                        let again = if rng.chance(1, 3) { gen::edited_copy(&mut rng, &t) } else { None };
                         inputs.push(t);
                         roles.push("polluter/edited_copy");
+                        if let Some(t2) = again {
+                            inputs.push(t2);
+                            roles.push("polluter/edited_copy");
+                        }
                     },
                     None => {
                         let name = names[k].clone();
